@@ -135,6 +135,29 @@ def tlc_histories(start, maxops, c=None):
     return out, r
 
 
+def recreation_histories(start):
+    """The histories `X ; drain ; Y` of the K=3 graph in which X takes a directory away from a path (rename, move out,
+    rmdir / rmtree) and Y makes a directory appear at or below that very path again (mkdir, makedirs, rename, move in):
+    whatever the library left behind under the old path meets the new directory."""
+    hs, r = tlc_histories(start, 3)
+    out = []
+    for h in hs:
+        if len(h) != 3 or h[1][0] != "drain" or h[0][0] not in ("rename", "moveout", "rmdir", "rmtree") \
+                or h[2][0] not in ("mkdir", "makedirs", "rename", "movein"):
+            continue
+        gone = h[0][1]
+        new = h[2][-1]
+        if new == gone or new.startswith(gone + "/"):
+            out.append(h)
+    if start == "deep":
+        # (FsGen's inode budget leaves no room for these) a directory moved out, then a chain of new directories created
+        # at its old path in one burst: the lower ones are only reached by the library's own walk of the new directory
+        out += [[["moveout", "a", "z1"], ["drain"], ["makedirs", "a/b"]], [["moveout", "a", "z1"], ["drain"], ["makedirs", "a/b/a"]],
+                [["moveout", "a/b", "z1"], ["drain"], ["makedirs", "a/b/a"]],
+                [["moveout", "a", "z1"], ["drain"], ["makedirs", "a/b"], ["drain"], ["movein", "z1", "a/b/c"]]]
+    return out, r
+
+
 # ----------------------------------------------------------------------------- random paced histories (Python walk)
 
 
